@@ -188,6 +188,7 @@ def run(tier):
                   node=cnode, function='band_choose_hello_time')
 
     tick_reschedule(rep, prog, ix, brec, B)
+    tick_reschedule(rep, prog, ix, brec, B, block_due=False)
     block_enders(rep, prog, ix, brec, B)
 
     # ---- who may write Ni (all parsed units of this configuration)
@@ -374,7 +375,7 @@ def candidates(st, r, beta):
     return out
 
 
-def tick_reschedule(rep, prog, ix, brec, B):
+def tick_reschedule(rep, prog, ix, brec, B, block_due=True):
     """automata_tick, RepeatBand in Pausing, block timeout due: after the tick the Hello deadline must respect the count
     the tick has just computed (whatever else happened in the same tick, e.g. a Hello having been sent)."""
     from .automata_common import Automaton
@@ -388,11 +389,11 @@ def tick_reschedule(rep, prog, ix, brec, B):
     NI = ('sym', 'band.Ni@entry', B['ALPHA'], B['NMAX'])
     BG = ('sym', 'band.begun', 0, 1)
     HT = ('sym', 'band.hello_timeout_ts@entry', 0, 1 << 62)
-    BT = ('sym', 'band.block_timeout_ts@entry', 1, 1 << 62)
+    BT = ('sym', 'band.block_timeout_ts@entry', 1, 1 << 62) if block_due else ZERO     # (second run: no block timer armed)
     LTX = ('sym', 'last_hello_tx_ms@entry', 0, 1 << 62)
     st = Eu.state0.fork()
     st.trace, st.tags = (), {}
-    st.tags['clkfloor.ms'] = (LTX, BT)          # the block deadline has passed: BT <= now
+    st.tags['clkfloor.ms'] = (LTX, BT) if block_due else (LTX,)          # the block deadline has passed: BT <= now
     e = st.objs[Eu.oid]
     e.cells[((), Eu.field_off('current_state'))] = (1, C(1))
     bext = st.canon(mem.load_scalar(st, e, C(Eu.field_off('extra')), ix.parse_type('void *')))
@@ -429,10 +430,16 @@ def tick_reschedule(rep, prog, ix, brec, B):
     collect_failures(rep, I, 'R13.ub')
     num, den = B['TXC'] * 20, 3 * B['GAMMA']
     nupd = 0
+    rep.rule('R13.9', 'the tick never counts a Hello as heard: on every path it leaves r as it was, or resets it where a block ends (own transmissions are not load)', floor=2)
     for s2, v in outs:
         b2 = s2.objs[bext[1]]
         bt2 = s2.canon(mem.load_scalar(s2, b2, C(off('block_timeout_ts')), ix.parse_type('unsigned long long')))
-        if bt2 == s2.canon(BT):
+        r2 = s2.canon(mem.load_scalar(s2, b2, C(off('r')), ix.parse_type('unsigned int')))
+        sent_ = any(x[0] == 'indirect' for x in s2.trace)
+        rep.check(s2.same(r2, R) or (block_due and r2 == ZERO), 'R13.9', 'tick|r|%s%s' % ('after-send' if sent_ else 'no-send', '' if block_due else '|no-block-end'),
+                  'a tick%s changes the number of Hellos heard in this block from %s to %s: the responder counts something other than Hellos it received as load'
+                  % (' that transmits the responder\'s own Hello' if sent_ else '', short(R), short(r2)), function='automata_tick', file=fnf)
+        if bt2 == s2.canon(BT) or not block_due:
             continue                      # no block ended on this path
         nupd += 1
         ni2 = s2.canon(mem.load_scalar(s2, b2, C(off('Ni')), ix.parse_type('unsigned int')))
@@ -443,5 +450,5 @@ def tick_reschedule(rep, prog, ix, brec, B):
                   'a block ends in this tick%s and the count becomes %s, but the next Hello stays scheduled at %s: sooner than the load formula ceil(%d*Ni/%d) for the new count allows'
                   % (' (a Hello was also sent in it)' if sent else '', short(ni2), short(hts), num, den), function='automata_tick', file=fnf,
                   sample={'block_end': True, 'hello_sent_same_tick': sent, 'Ni_after': short(ni2)})
-    if nupd == 0:
+    if nupd == 0 and block_due:
         rep.fail('R13.6', 'tick|no-block-end', 'no path of the tick ends an enumeration block', function='automata_tick', file=fnf)
